@@ -217,6 +217,9 @@ pub struct Sim {
     was_leader: Vec<bool>,
     pub violations: Vec<(String, String)>,
     pub states: BTreeSet<u64>,
+    /// leader commits whose index fewer than a quorum of nodes had on the leader's own record
+    pub sub_quorum_commits: u64,
+    pub leader_commits: u64,
     /// per target: (first index of the last append batch delivered, the target's commit index before it, response kind)
     pub last_append: BTreeMap<u64, (u64, u64, &'static str)>,
 }
@@ -243,6 +246,8 @@ impl Sim {
             violations: vec![],
             states: BTreeSet::new(),
             last_append: BTreeMap::new(),
+            sub_quorum_commits: 0,
+            leader_commits: 0,
         }
     }
     fn n(&self) -> usize {
@@ -421,6 +426,18 @@ impl Sim {
                 }
             }
         }
+        // observation for the causal signature of C28: a leader that advanced its commit index to i
+        // must have had a quorum of nodes with a log index >= i on its own record (the code's own rule)
+        for i in 0..self.n() {
+            if probes[i].state == ProbeState::Leader && self.was_leader[i] && probes[i].log_commit > self.last_commit_index[i] {
+                self.leader_commits += 1;
+                let quorum = self.n() / 2 + 1;
+                let acks = self.nodes[i].probe_table().iter().filter(|x| **x >= probes[i].log_commit).count();
+                if acks < quorum {
+                    self.sub_quorum_commits += 1;
+                }
+            }
+        }
         // C28
         for i in 0..self.n() {
             let st = &self.nodes[i].storage;
@@ -435,7 +452,11 @@ impl Sim {
                             }
                             Some((t, d, who)) if (*t, *d) != entry => {
                                 self.violations.push((
-                                    format!("C28:two_nodes_committed_different_entries_at_one_index:{}", if self.net == Net::Adversarial { "adversarial_network" } else { "transport_faithful_network" }),
+                                    format!(
+                                        "C28:two_nodes_committed_different_entries_at_one_index:{}{}",
+                                        if self.net == Net::Adversarial { "adversarial_network" } else { "transport_faithful_network" },
+                                        if self.sub_quorum_commits > 0 { ":after_a_leader_committed_with_fewer_than_a_quorum_of_replicas_on_its_record" } else { "" }
+                                    ),
                                     format!(
                                         "index {}: node {who} committed (term {t}, data {d}), node {i} committed (term {}, data {})",
                                         l.index, l.term, l.data
@@ -648,6 +669,8 @@ impl CaseEngine for Safety {
             if sim.leaders.len() > 1 {
                 rep.count("runs_with_leader_change");
             }
+            rep.add("leader_commit_advances_observed", sim.leader_commits as i64);
+            rep.add("leader_commit_advances_with_fewer_than_a_quorum_on_the_leaders_record", sim.sub_quorum_commits as i64);
             rep.max("max_committed_index", sim.first_commit.keys().max().copied().unwrap_or(0) as i64);
             rep.max("max_term", sim.probes().iter().map(|p| p.term).max().unwrap_or(0) as i64);
             for (sig, detail) in &sim.violations {
